@@ -188,6 +188,35 @@ pub fn run(ctx: &Ctx) -> Outcome {
         }
         co
     });
+    if !ctx.miri {
+        run_cases(ctx, &mut out, SubSpec { name: "large_surfaces", cases: ctx.n(8, 200), exhaustive: false, max_secs: 120. }, |i, want, st| {
+            let mut rng = ctx.rng("large_surfaces", i);
+            let (w, h) = *rng.pick(&[(200, 100), (130, 130), (257, 70), (64, 300), (1, 20000), (20000, 1)]);
+            let n = (w * h) as usize;
+            // painted and empty regions alternate at different scales (rows, blocks, single pixels)
+            let style = rng.below(3);
+            let pixels: Vec<u32> = (0..n)
+                .map(|k| {
+                    let on = match style {
+                        0 => (k / w as usize) % 7 < 3,
+                        1 => (k / 4099) % 2 == 0,
+                        _ => rng.chance(0.5),
+                    };
+                    if on { premul_pixel(&mut rng) | 0x01000000 } else { 0 }
+                })
+                .collect();
+            let mut co = CaseOut::default();
+            co.hash = crate::prng::hash_str(&format!("{:?}{}", (w, h, style), pixels.len()));
+            co.nontrivial = true;
+            if let Some(v) = check_surface(w, h, &pixels, st, true, 5000 + i) {
+                co.viol("C19", v);
+            }
+            if want || !co.violations.is_empty() {
+                co.desc = Some(J::s(&format!("{}x{} surface, fill style {}", w, h, style)));
+            }
+            co
+        });
+    }
     out.assume("little-endian machine (the statement's byte order); PNG files are written under /verif/.work and removed again");
     let _ = Rng::new(0, "", 0);
     out
